@@ -1,8 +1,10 @@
 #!/bin/sh
-# usage: sh vk/with_patch.sh <patch.diff> <command...>   -- applies the patch to /repo, runs the command, reverts.
+# usage: sh vk/with_patch.sh [-R] <patch.diff> <command...>   -- applies the patch to /repo, runs the command, reverts.
+REV=""
+if [ "$1" = "-R" ]; then REV="-R"; shift; fi
 P="$1"; shift
-git -C /repo apply "$P" || exit 9
+git -C /repo apply $REV "$P" || exit 9
 "$@"; RC=$?
-git -C /repo apply -R "$P"
+if [ -n "$REV" ]; then git -C /repo apply "$P"; else git -C /repo apply -R "$P"; fi
 git -C /repo status --short | grep -v '^??' && echo "WARNING: /repo not clean"
 exit $RC
